@@ -1,0 +1,100 @@
+//! varint, packet number, Dedup
+use super::{hex, num, unhex, Comp, BAD};
+use crate::coding::Codec;
+use crate::connection::spaces::Dedup;
+use crate::packet::PacketNumber;
+use crate::VarInt;
+
+pub(super) struct VarIntC;
+impl Comp for VarIntC {
+    fn exec(&mut self, w: &[&str]) -> String {
+        varint(w)
+    }
+}
+
+pub(super) struct PnC;
+impl Comp for PnC {
+    fn exec(&mut self, w: &[&str]) -> String {
+        pn(w)
+    }
+}
+
+pub(super) struct DedupC(Dedup);
+impl DedupC {
+    pub(super) fn new() -> Self {
+        Self(Dedup::new())
+    }
+}
+impl Comp for DedupC {
+    fn exec(&mut self, w: &[&str]) -> String {
+        match w {
+            ["new"] => {
+                self.0 = Dedup::new();
+                "ok".into()
+            }
+            ["insert", p] => {
+                let Some(p) = num(p) else { return BAD.into() };
+                if p == u64::MAX {
+                    return BAD.into();
+                }
+                let dup = self.0.insert(p);
+                let (window, next) = self.0.verif_state();
+                format!("{dup} {next} {window}")
+            }
+            _ => BAD.into(),
+        }
+    }
+}
+
+fn varint(w: &[&str]) -> String {
+    match w {
+        ["enc", x] => {
+            let Some(x) = num(x) else { return BAD.into() };
+            match VarInt::from_u64(x) {
+                Err(_) => "err bounds".into(),
+                Ok(v) => {
+                    let mut buf = Vec::new();
+                    v.encode(&mut buf);
+                    format!("ok {} {}", hex(&buf), v.size())
+                }
+            }
+        }
+        ["dec", h] => {
+            let Some(b) = unhex(h) else { return BAD.into() };
+            let mut r = &b[..];
+            match VarInt::decode(&mut r) {
+                Ok(v) => format!("ok {} {}", v.into_inner(), b.len() - r.len()),
+                Err(_) => "err end".into(),
+            }
+        }
+        _ => BAD.into(),
+    }
+}
+
+fn pn(w: &[&str]) -> String {
+    match w {
+        ["new", n, la] => {
+            let (Some(n), Some(la)) = (num(n), num(la)) else {
+                return BAD.into();
+            };
+            let p = PacketNumber::new(n, la);
+            let mut buf = Vec::new();
+            p.encode(&mut buf);
+            format!("ok {} {}", p.len(), hex(&buf))
+        }
+        ["expand", h, e] => {
+            let (Some(b), Some(e)) = (unhex(h), num(e)) else {
+                return BAD.into();
+            };
+            if b.is_empty() || b.len() > 4 {
+                return BAD.into();
+            }
+            let mut r = std::io::Cursor::new(&b[..]);
+            match PacketNumber::decode(b.len(), &mut r) {
+                Ok(p) => format!("ok {}", p.expand(e)),
+                Err(_) => "err end".into(),
+            }
+        }
+        _ => BAD.into(),
+    }
+}
